@@ -135,6 +135,20 @@ def run_case(case):
         if sample is None and dist > 100:
             sample = {"ref": (lat0, lon0), "offset_m": (x, y), "latlon": (la, lo), "back_m": (x2, y2)}
 
+    # integer-typed degrees (YAML 'ref_lat: 50') give the float-typed result
+    for _ in range(20):
+        la_i, lo_i, rla, rlo = int(rng.integers(-60, 61)), int(rng.integers(-179, 180)), int(rng.integers(-60, 61)), int(rng.integers(-179, 180))
+        if abs(la_i - rla) > 1 or abs(lo_i - rlo) > 1:
+            la_i, lo_i = rla, rlo + int(rng.integers(-1, 2))
+        for T in (int, np.int64, np.int32):
+            xi, yi = latlon_to_xy(T(la_i), T(lo_i), T(rla), T(rlo))
+            xf, yf = latlon_to_xy(float(la_i), float(lo_i), float(rla), float(rlo))
+            bi = xy_to_latlon(T(1000), T(-2000), T(rla), T(rlo))
+            bf = xy_to_latlon(1000.0, -2000.0, float(rla), float(rlo))
+            counters["points"] += 1
+            if (float(xi), float(yi)) != (xf, yf) or (float(bi[0]), float(bi[1])) != (float(bf[0]), float(bf[1])):
+                viol.append({"what": "integer_typed_degrees_change_the_result", "type": T.__name__, "args": (la_i, lo_i, rla, rlo),
+                             "got": (float(xi), float(yi)), "expected": (xf, yf)})
     # arrays through the inverse (its documented vectorised form) equal the scalar calls
     arr = np.array([(p[2], p[3]) for p in pts[:50]])
     lat0, lon0 = pts[1][0], pts[1][1]
